@@ -148,7 +148,7 @@ func c13AddrReal(w *W) {
 	w.SetShape("tran", tran)
 	srv, cli := tlsConfigs()
 	var lopts, dopts map[string]interface{}
-	url := tran + "://127.0.0.1:0"
+	url := tran + "://" + loopIP + ":0"
 	switch tran {
 	case "ipc":
 		p := fmt.Sprintf("%s/verif-c13-%d-%d.sock", os.TempDir(), os.Getpid(), w.RunIdx)
